@@ -147,7 +147,8 @@ func H_C13_Tree(v *sym.V) {
 // H_C13_Join: Join drops nils, returns nil when nothing remains, joins texts with newlines.
 func H_C13_Join(v *sym.V) {
 	g := newG(v, sym.REG)
-	var args []error
+	g.Slim = true
+	var args, kept []error
 	var texts []string
 	n := v.Choice("n", 4)
 	for i := 0; i < n; i++ {
@@ -155,8 +156,20 @@ func H_C13_Join(v *sym.V) {
 			args = append(args, nil)
 			continue
 		}
-		b := g.Leaf(fmt.Sprintf("a%d", i), []gen.Kind{gen.LNew, gen.LStd})
+		// an argument may itself be a join (accumulation loops: err = Join(err, x)), bare or wrapped
+		var b *gen.B
+		switch v.Choice(fmt.Sprintf("kind%d", i), 4) {
+		case 0:
+			b = g.LeafOf(fmt.Sprintf("a%d", i), gen.LNew)
+		case 1:
+			b = g.LeafOf(fmt.Sprintf("a%d", i), gen.LStd)
+		case 2:
+			b = &gen.B{Err: errors.Join(errors.New("p"), stderrors.New("q")), Text: "p\nq"}
+		case 3:
+			b = &gen.B{Err: errors.Wrap(errors.Join(errors.New("p"), stderrors.New("q")), "w"), Text: "w: p\nq"}
+		}
 		args = append(args, b.Err)
+		kept = append(kept, b.Err)
 		texts = append(texts, b.Text)
 	}
 	j := errors.Join(args...)
@@ -166,5 +179,15 @@ func H_C13_Join(v *sym.V) {
 	}
 	v.Assert("join-non-nil", j != nil)
 	v.Assert("join-text", j.Error() == joinSep(texts, "\n"))
-	v.Assert("join-branches", len(errbase.UnwrapMulti(errors.UnwrapAll(j))) == len(texts))
+	br := errbase.UnwrapMulti(errors.UnwrapAll(j))
+	v.Assert("join-branches", len(br) == len(texts))
+	if len(br) == len(kept) {
+		same := true
+		for i := range br {
+			same = same && br[i] == kept[i]
+		}
+		v.Assert("join-branch-identity", same)
+	}
+	// branch count and nesting survive a transfer, node by node
+	cmpTree(v, "join-hop", j, wire.Hop(j))
 }
